@@ -209,10 +209,10 @@ def finish_check(pid, tier, prop, base_seed, cfg, aggs, dead, t0, nworkers, scra
         n_new += 1
         lines.append(f"VIOLATION property={pid} replay={path}")
         lines.append(f"  kind={item['violation']['kind']} detail={item['violation']['detail'][:300]}")
-    if new_items and status == 0:
+    if new_items:
+        # confirmed violations (each with a replay that reproduces in a fresh process) decide the exit code even if
+        # some other runs of the batch ended in a harness error: the HARNESS-ERROR lines are printed all the same
         status = 1
-    elif new_items:
-        status = 1 if status != 2 else 2
 
     wall = time.time() - t0
     probes_zero = [p for p in getattr(prop, 'EXPECTED_PROBES', []) if not probes.get(p)]
